@@ -34,6 +34,17 @@ def _get_iter(ex, st, v):
         n += 1
         if n > 6:
             break
+    if isinstance(v, Obj) and re.search(r"(^|::)Range(::)?<", v.ty or "") and (None, 0) in v.fields and (None, 1) in v.fields \
+            and isinstance(v.fields[(None, 0)], Sym) and isinstance(v.fields[(None, 1)], Sym):
+        # a Range used directly as an iterator (`(a..b).map(..)`): dense iterator over a, a+1, .. (up to the executor's cap)
+        lo, hi = v.fields[(None, 0)], v.fields[(None, 1)]
+        cap = getattr(ex, "cap", 4) + 1
+        cnt = z3.If(z3.ULT(lo.t, hi.t), hi.t - lo.t, z3.BitVecVal(0, lo.t.size()))
+        if ex.feasible(st, z3.UGT(cnt, z3.BitVecVal(cap, lo.t.size()))):
+            raise Unsupported("range longer than the modelled capacity %d" % cap)
+        slots = [(z3.ULT(z3.BitVecVal(k, lo.t.size()), cnt), Sym(lo.t + z3.BitVecVal(k, lo.t.size()), lo.ty)) for k in range(cap)]
+        cnt64 = cnt if cnt.size() == 64 else z3.ZeroExt(64 - cnt.size(), cnt)
+        v = IterV(slots, lo.ty, True, cnt64)
     if not isinstance(v, IterV):
         raise Unsupported("expected iterator, got %r" % (v,))
     return v, where
@@ -282,6 +293,11 @@ def h_collect_vec(ex, st, frame, t, nf, args, dty):
     if not it.dense:
         raise Unsupported("collect of sparse iterator")
     ga = generic_args(dty)
+    mbox = re.match(r"^(std::boxed::)?Box<\[(.*)\]>$", dty)
+    if mbox:      # collect::<Box<[T]>>(): a boxed slice = reference to a heap vector (as Vec::into_boxed_slice)
+        cap = max(ex.cap, len(it.slots))
+        elems = [x for _, x in it.slots] + [None] * (cap - len(it.slots))
+        return [(Ref(st.new_cell(VecV(mbox.group(2), cap, Sym(it.count, "usize"), elems)), (), True, dty), None)]
     if base_type(dty).split("::")[-1] != "Vec":
         raise Unsupported("collect into " + dty[:40])
     cap = max(ex.cap, len(it.slots))
